@@ -311,3 +311,10 @@ def library_data(ctx):
                        ("der_compressibility", "constant_property"), ("compressibility", "linear_property")):
         ctx.decided("call_lib/%s" % prop, "schema", "properties['%s'] = %s('%s')" % (prop, kind, prop) in src,
                     witness="call_lib does not build %s with %s" % (prop, kind))
+
+
+@unit("C19", "std_type_parameters_reach_the_row", functions=["pandapipes.create:create_pipes"], engine="E5")
+def std_type_rows(ctx):
+    """standard-type parameters reach the pipe row, also when one type is named per pipe (shared with C16)"""
+    from contracts.C16 import create_pipes_std_type_list
+    create_pipes_std_type_list(ctx)
